@@ -353,6 +353,15 @@ func genC14(c *Ctx) {
 		tok := encPos(p)
 		out := c.Emit("syms " + tok)
 		c.Emit("ssyms " + tok)
+		if it%5 == 0 {
+			// the same through a Config borrowed from a game of another size (road boards: the verdicts matter)
+			other := roadBoard(c.R, 3+c.R.Intn(6))
+			q := p
+			if c.R.Chance(1, 2) {
+				q = roadBoard(c.R, size)
+			}
+			c.Count("symscfg=" + clip(c.Emit("symscfg "+encPos(other)+" "+encPos(q)), 5))
+		}
 		c.Count("images=" + strconv.Itoa(len(strings.Fields(out))))
 		ks := []int{c.R.Intn(8), 1 + c.R.Intn(7)}
 		if c.R.Chance(1, 5) {
